@@ -73,9 +73,12 @@ Global Hint Rewrite routed_at routed_app @routed_flat_map routed_check_string ro
   routed_check_concurrency routed_check_defaults : routed.
 
 (* ------------------------------------------------------------------ *)
-(* covers A B: every scalar of A that contains a placeholder is in B or exempt *)
+(* covers A B: every scalar of A is in B or exempt — for a step id (the only
+   guarded call site: `if n.ID.ContainsExpression()`) provided it contains a
+   placeholder *)
 
-Definition has_placeholder (s : scalar) : Prop := contains_expr (sval (sc_str s)) = true.
+Definition has_placeholder (s : scalar) : Prop :=
+  sc_field s = "Step.ID" -> contains_expr (sval (sc_str s)) = true.
 
 Definition covers (A B : list scalar) : Prop :=
   forall s, In s A -> has_placeholder s -> In s B \/ exempt s.
@@ -309,7 +312,7 @@ Proof.
   autorewrite with routed. split_covers; try by_refl.
   - (* Step.ID: handed over when it contains a placeholder *)
     destruct id as [i|]; cbn [of_ostr]; [|apply covers_nil].
-    intros s [<-|[]] Hp. unfold has_placeholder in Hp. cbn [sc_str snd] in Hp. rewrite Hp.
+    intros s [<-|[]] Hp. unfold has_placeholder in Hp. cbn [sc_str sc_field fst snd] in Hp. rewrite (Hp eq_refl).
     left. autorewrite with routed. rewrite !in_app_iff. do 6 right. now left.
   - destruct ex as [[run sh wd | uses inputs entry args]|]; cbn [of_opt exec_scalars]; [| |apply covers_nil].
     + autorewrite with routed. by_refl.
